@@ -16,7 +16,9 @@
                non-meta leaf or announced a non-meta entry; UpdateSize /
                subscribing changed a tree or announced something;
         tag 3  Reset post-condition (no non-meta leaf, every removed leaf
-               covered by an announced delete of that target, metadata initial);
+               covered by an announced delete of that target, metadata initial:
+               also equal to what Metadata() showed right after the target was
+               added, whatever options the cache was built with);
         tag 4  Remove post-condition (unknown afterwards, exactly one
                whole-target delete announced) and "unknown to updates"
                (GnmiUpdate to an unknown name is an error without effect);
@@ -160,7 +162,7 @@ Definition leaf_shows (d : list (path * notif)) (k : string) (v : tv) : bool :=
                     otv_eqb (first_val (snd e)) (Some v)) d.
 
 (** everything Reset promises except the latest timestamp *)
-Definition reset_core (t : string) (before after : tobs) (feed : list notif) : bool :=
+Definition reset_core (excl : list string) (t : string) (before after : tobs) (feed : list notif) : bool :=
   match to_dump before, to_dump after, to_meta after with
   | Some d0, Some d1, Some m =>
       to_has after &&
@@ -169,34 +171,37 @@ Definition reset_core (t : string) (before after : tobs) (feed : list notif) : b
       opt_eqb Bool.eqb (mo_bool m md_sync) (Some false) &&
       opt_eqb Bool.eqb (mo_bool m md_connected) (Some false) &&
       forallb (fun k => opt_eqb Z.eqb (mo_int m k) (Some 0)) counters_reset &&
-      leaf_shows d1 md_sync (TBool false) &&
-      leaf_shows d1 md_connected (TBool false) &&
-      forallb (fun k => leaf_shows d1 k (TInt 0)) counters_reset
+      (* the exported leaves follow, except those the cache was told not to
+         generate updates for (cache.WithExcludedMeta) *)
+      (name_in md_sync excl || leaf_shows d1 md_sync (TBool false)) &&
+      (name_in md_connected excl || leaf_shows d1 md_connected (TBool false)) &&
+      forallb (fun k => name_in k excl || leaf_shows d1 k (TInt 0)) counters_reset
   | _, _, _ => false
   end.
 
 (** the latest timestamp after Reset: [Some true] initial value 0,
     [Some false] the zero-time sentinel (known finding), [None] anything else *)
-Definition reset_latest (after : tobs) : option bool :=
+Definition reset_latest (excl : list string) (after : tobs) : option bool :=
   match to_dump after, to_meta after with
   | Some d1, Some m =>
-      if opt_eqb Z.eqb (mo_int m md_latest_ts) (Some 0) && leaf_shows d1 md_latest_ts (TInt 0)
+      let ex := name_in md_latest_ts excl in
+      if opt_eqb Z.eqb (mo_int m md_latest_ts) (Some 0) && (ex || leaf_shows d1 md_latest_ts (TInt 0))
       then Some true
       else if opt_eqb Z.eqb (mo_int m md_latest_ts) (Some zero_time_unixnano) &&
-              leaf_shows d1 md_latest_ts (TInt zero_time_unixnano)
+              (ex || leaf_shows d1 md_latest_ts (TInt zero_time_unixnano))
       then Some false
       else None
   | _, _ => None
   end.
 
-Definition kp_reset (prev : list (string * tobs)) (o : mop) (ob : mobs) : list N :=
+Definition kp_reset (excl : list string) (prev : list (string * tobs)) (o : mop) (ob : mobs) : list N :=
   match o with
   | MReset _ t =>
       match assoc t prev, assoc t (o_tgts ob) with
       | Some b, Some a =>
           if to_has b then
-            if reset_core t b a (o_feed ob) then
-              match reset_latest a with
+            if reset_core excl t b a (o_feed ob) then
+              match reset_latest excl a with
               | Some true => []
               | Some false => [12%N]
               | None => [3%N]
@@ -368,9 +373,58 @@ Definition ksubs_next (kst : kstate) (o : mop) (ob : mobs) : kstate :=
 
 (** * K_P of one step *)
 
-Definition kp_step (prev : list (string * tobs)) (ksubs : kstate) (o : mop) (ob : mobs) : list N :=
+(** "Reset puts the metadata back to its INITIAL values": the values of
+    Metadata() after Reset are those observed right after the target was added
+    (whatever options the cache was built with: server name, future threshold,
+    excluded metadata), except for the latest timestamp, which [reset_latest]
+    judges (known finding); and the leaf meta/serverName, when stored, shows
+    the server name *)
+Definition ints_but_latest (m : metaobs) : list (option Z) :=
+  map snd (filter (fun kv => negb (String.eqb (fst kv) md_latest_ts)) (combine md_int_names (mo_ints m))).
+
+Definition initial_again (mb ma : metaobs) : bool :=
+  list_eqb (opt_eqb Z.eqb) (ints_but_latest mb) (ints_but_latest ma) &&
+  list_eqb (opt_eqb Bool.eqb) (mo_bools mb) (mo_bools ma) &&
+  list_eqb (opt_eqb String.eqb) (mo_strs mb) (mo_strs ma) &&
+  opt_eqb String.eqb (mo_srv mb) (mo_srv ma).
+
+Definition kbase := list (string * metaobs).
+
+Definition kp_reset_base (excl : list string) (base : kbase) (prev : list (string * tobs)) (o : mop) (ob : mobs) : bool :=
+  match o with
+  | MReset _ t =>
+      match assoc t prev, assoc t base, assoc t (o_tgts ob) with
+      | Some b, Some mb, Some a =>
+          negb (to_has b) ||
+          match to_meta a, to_dump a with
+          | Some ma, Some d1 =>
+              initial_again mb ma &&
+              match mo_srv ma with
+              | Some sname => name_in md_server_name excl || leaf_shows d1 md_server_name (TStr sname)
+              | None => true
+              end
+          | _, _ => false
+          end
+      | _, _, _ => true
+      end
+  | _ => true
+  end.
+
+Definition kbase_next (base : kbase) (o : mop) (ob : mobs) : kbase :=
+  match o with
+  | MAdd t => match assoc t (o_tgts ob) with
+              | Some a => match to_meta a with Some m => aset t m base | None => base end
+              | None => base
+              end
+  | _ => base
+  end.
+
+Definition kbase_init (init : list (string * tobs)) : kbase :=
+  flat_map (fun kt => match to_meta (snd kt) with Some m => [(fst kt, m)] | None => [] end) init.
+
+Definition kp_step (excl : list string) (prev : list (string * tobs)) (ksubs : kstate) (o : mop) (ob : mobs) : list N :=
   (if kp_isolation prev o ob then [] else [2%N]) ++
-  kp_reset prev o ob ++
+  kp_reset excl prev o ob ++
   (if kp_remove prev o ob then [] else [4%N]) ++
   (if kp_views ob then [] else [5%N]) ++
   (if kp_subs prev ksubs o ob then [] else [6%N]).
@@ -381,25 +435,34 @@ Definition kp_step (prev : list (string * tobs)) (ksubs : kstate) (o : mop) (ob 
 
 (** * Verdicts *)
 
-Fixpoint check_from (i : nat) (s : mstate) (prev : list (string * tobs)) (ksubs : kstate)
-  (l : list (mop * mobs)) : list (nat * N) :=
+Fixpoint check_from (excl : list string) (srv : option string) (i : nat) (s : mstate) (prev : list (string * tobs)) (ksubs : kstate)
+  (base : kbase) (l : list (mop * mobs)) : list (nat * N) :=
   match l with
   | [] => []
   | (o, ob) :: l' =>
-      let '(s', r, f, outs) := mstep s o in
-      let v1 := if corr_step o s' r f outs ob then [] else [(i, 1%N)] in
-      let vk := map (fun t => (i, t)) (kp_step prev ksubs o ob) in
-      v1 ++ vk ++ check_from (S i) s' (o_tgts ob) (ksubs_next ksubs o ob) l'
+      let '(s', r, f, outs) := mstep_gen (srv_post srv) s o in
+      let v1 := if corr_step_s srv o s' r f outs ob then [] else [(i, 1%N)] in
+      let vk := map (fun t => (i, t)) (kp_step excl prev ksubs o ob) in
+      let vb := if kp_reset_base excl base prev o ob then [] else [(i, 3%N)] in
+      v1 ++ vk ++ vb ++
+      check_from excl srv (S i) s' (o_tgts ob) (ksubs_next ksubs o ob) (kbase_next base o ob) l'
   end.
 
 Definition check_init (s : mstate) (init : list (string * tobs)) : list (nat * N) :=
   if forallb (fun kt => tobs_eqb (model_tobs (ms_cache s) (fst kt)) (snd kt)) init
   then [] else [(0%nat, 1%N)].
 
-Definition check_case (cs : mcase) : list (nat * N) :=
+Definition check_init_s (srv : option string) (s : mstate) (init : list (string * tobs)) : list (nat * N) :=
+  if forallb (fun kt => tobs_eqb (with_srv srv (model_tobs (ms_cache s) (fst kt))) (snd kt)) init
+  then [] else [(0%nat, 1%N)].
+
+(** [srv]: the server name the cache was built with (cache.WithServerName) *)
+Definition check_case_s (srv : option string) (cs : mcase) : list (nat * N) :=
   let '(cfg, names, init, l) := cs in
   let s := minit cfg names in
-  check_init s init ++ check_from 0 s init ([], None) l.
+  check_init_s srv s init ++ check_from (cfg_excluded cfg) srv 0 s init ([], None) (kbase_init init) l.
+
+Definition check_case (cs : mcase) : list (nat * N) := check_case_s None cs.
 
 (** * Atomicity of [mutate; announce] (concurrent family)
 
@@ -510,11 +573,13 @@ Definition check_conc (cs : conccase) : list (nat * N) :=
 
 Inductive c14case :=
 | CSeq (c : mcase)
+| CSeqS (srv : string) (c : mcase)      (* the cache was built with cache.WithServerName(srv) *)
 | CConc (c : conccase).
 
 Definition check_case14 (c : c14case) : list (nat * N) :=
   match c with
   | CSeq m => check_case m
+  | CSeqS srv m => check_case_s (Some srv) m
   | CConc m => check_conc m
   end.
 
